@@ -2255,7 +2255,7 @@ fn run(ctx: &Ctx) {
     for (i, sig) in REGIONS.iter().enumerate() {
         known[i] = ctx.known_sig(sig);
     }
-    ctx.run_sub("page", ctx.tier.pick(15_000, 300_000), move || strategy(known), check);
+    ctx.run_sub("page", ctx.tier.pick(60_000, 600_000), move || strategy(known), check);
 }
 
 fn replay(ctx: &Ctx, sub: &str, case: &Value) -> Result<Outcome, String> {
